@@ -1,8 +1,9 @@
 """C11 -- suspend/resume and directed switches hand control as documented
 (structural part)."""
-from abtverif import cfg, seq
-from abtverif.seq import idx, is_call, show, has_if, atomic_cmp
-from . import common, C02, C06
+from abtverif import canon, cfg, seq
+from abtverif.seq import idx, is_call, show
+from . import common, C02, C06, C12
+from .C06 import Sel, atomic_test, rooted, descendants_through
 
 EXPLANATION = (
     "Decides, for every switch primitive of abti_ythread.h and its API entry point: R1 (= C02.R3) BLOCKED is "
@@ -18,6 +19,7 @@ EXPLANATION = (
 DECLINED = ["'runs exactly once per resume' over histories with user-defined schedulers"]
 ASSUMPTIONS = ["C02 A1-A5: the assembly runs the callback after saving the old context"]
 RULES_DOC = dict(common.SHARED_DOC)
+RULES_DOC["R7"] = "= C12.R3: a unit that is suspending is never terminated inside its suspend callback (only yield-family callbacks may honour a cancel request)"
 RULES_DOC.update({
     "R1": "= C02.R3: suspend callbacks publish BLOCKED before anything that lets a waker run",
     "R2": "resume: READY -> push -> un-count; ABT_thread_resume acts only on a unit observed BLOCKED (acquire)",
@@ -36,7 +38,8 @@ def classify_callback(P, name):
     F = P.fn(name, Y)
     BLOCKED = P.enum_consts["ABT_THREAD_STATE_BLOCKED"]
     calls = {"ABTI_pool_add_thread", "ABTI_thread_terminate", "ABTI_thread_handle_request", "ythread_callback_yield_impl"}
-    sel = seq.Sel(calls=calls, fields={"state"}, conds=lambda t: "handle_request" in t)
+    # canonical label of the cancellation test: `ABTI_thread_handle_request(..) & CANCELLED`, true = the bit is set
+    sel = Sel(calls=calls, fields={"state"}, conds=lambda t: "ABTI_thread_handle_request(" in t, canon=True)
     kinds = set()
     for toks, kind, rv, rtxt in seq.sequences(F, sel):
         if kind != "ret":
@@ -44,7 +47,7 @@ def classify_callback(P, name):
         if idx(toks, is_call("ythread_callback_yield_impl")):
             kinds.add(classify_callback(P, "ythread_callback_yield_impl"))
             continue
-        cancelled = any(t[0] == "if" and "handle_request" in t[1] and t[2] for t in toks)
+        cancelled = any(t[0] == "if" and t[2] for t in toks)
         if any(t[0] == "ast" and t[2] == "ABTI_thread::state" and t[3] == BLOCKED for t in toks):
             kinds.add("suspend")
         elif idx(toks, is_call("ABTI_thread_terminate")):
@@ -96,6 +99,59 @@ API = {
 }
 
 
+YT = "ABTI_ythread*"
+
+
+def _ty(p):
+    return p["t"].replace(" ", "")
+
+
+def _roles(G):
+    """role -> parameter index of a switch helper / primitive, from the parameter TYPES: the ABTI_ythread * parameters
+    in order are the outgoing unit ('old') and the unit switched to ('new'), the function pointer is the post-switch
+    callback, the last void * its argument."""
+    r = {}
+    yts = [i for i, p in enumerate(G.params) if _ty(p) == YT]
+    if yts:
+        r["old"] = yts[0]
+    if len(yts) > 1:
+        r["new"] = yts[1]
+    fps = [i for i, p in enumerate(G.params) if "(*)" in p["t"]]
+    if fps:
+        r["f_cb"] = fps[0]
+        vs = [i for i, p in enumerate(G.params) if _ty(p) == "void*" and i > fps[0]]
+        if vs:
+            r["cb_arg"] = vs[-1]
+    return r
+
+
+def _local_types(F):
+    out = {}
+    for bid, j in F.all_events():
+        dn = F.nodes[j]
+        if dn.get("k") == "decl":
+            for v in dn["vars"]:
+                out[v["n"]] = (v["t"], j, v.get("init"))
+    return out
+
+
+def _struct_values(F, var, init):
+    """field index/name -> value node of a local struct: from its initialiser list, else from member stores"""
+    vals = {}
+    il = F.nodes[F.strip(init)] if init is not None else None
+    if il is not None and il.get("k") == "ilist":
+        for k, e in enumerate(il["e"]):
+            vals[k] = e
+        return vals
+    for b, i, lh, rh in F.stores():
+        ln = F.nodes[F.strip(lh)]
+        if rh is not None and ln.get("k") == "mem" and not ln["arrow"]:
+            bn = F.nodes[F.strip(ln["b"])]
+            if bn.get("k") == "ref" and bn["n"] == var:
+                vals[ln["f"]] = rh
+    return vals
+
+
 def rule_R3(P, rep):
     cls_cache = {}
     for prim, (family, has_target) in sorted(PRIMS.items()):
@@ -104,16 +160,22 @@ def rule_R3(P, rep):
             F = P.fn(prim)
         sw = F.calls(SIB | PAR)
         rep.need(sw, "%s does not switch" % prim)
+        mine = _roles(F)
+        rep.need("old" in mine and (not has_target or "new" in mine), "%s: ABTI_ythread * parameters not found" % prim)
+        p_self = F.params[mine["old"]]["n"]
+        p_target = F.params[mine["new"]]["n"] if has_target else None
+        ltypes = _local_types(F)
         for bid, nid in sw:
             nd = F.nodes[nid]
             G = P.resolve_call(F, nd)
-            argmap = {p["n"]: F.render(a) for p, a in zip(G.params, nd["a"])}
-            cb = argmap.get("f_cb")
+            roles = _roles(G)
+            # arguments by role, as access paths rooted at this primitive's parameters (temporaries resolved)
+            argmap = {r: rooted(F, nd["a"][k]) for r, k in roles.items() if k < len(nd["a"])}
             why = []
-            cbi = [a for p, a in zip(G.params, nd["a"]) if p["n"] == "f_cb"]
+            cbi = [nd["a"][roles["f_cb"]]] if "f_cb" in roles else []
             # the callback is a designator or a local that only ever holds designators: each candidate is classified
-            cands = sorted((F.func_values(cbi[0]) if cbi else None) or [cb])
-            cb = "|".join(cands)
+            cands = sorted((F.func_values(cbi[0]) if cbi else None) or [argmap.get("f_cb")])
+            cb = "|".join(str(c) for c in cands)
             for c in cands:
                 if c not in cls_cache:
                     cls_cache[c] = classify_callback(P, c) if P.fns(c) else "unknown"
@@ -122,35 +184,36 @@ def rule_R3(P, rep):
             if has_target:
                 if nd["fn"] not in SIB:
                     why.append("a directed switch must go to the sibling (target), not the parent")
-                elif argmap.get("p_new") != "p_target":
-                    why.append("switches to %s instead of the given target" % argmap.get("p_new"))
+                elif argmap.get("new") != p_target:
+                    why.append("switches to %s instead of the given target" % argmap.get("new"))
             else:
                 if nd["fn"] in SIB and prim != "ABTI_ythread_exit":
                     why.append("undirected primitive switches to a sibling")
-            if argmap.get("p_old") != "p_self":
-                why.append("outgoing ULT is %s" % argmap.get("p_old"))
+            if argmap.get("old") != p_self:
+                why.append("outgoing ULT is %s" % argmap.get("old"))
             # the callback argument must identify the outgoing ULT (directly or through the arg struct)
             ca = argmap.get("cb_arg", "")
-            if "p_self" not in ca and "&arg" not in ca:
+            carries = ca == p_self or (ca.startswith("&") and ltypes.get(ca[1:], ("",))[0].startswith("ABTI_ythread_callback_"))
+            if not carries:
                 why.append("callback argument %s does not carry the outgoing ULT" % ca)
             rep.ob("R3", "%s (%s family) -> %s with callback %s" % (prim, family, nd["fn"].replace("ABTI_ythread_", ""), cb),
                    not why, "; ".join(why), loc=F.loc(nid), site="%s/%s" % (prim, cb))
         # arg structs: { p_self, p_target/lock/... } first field must be the outgoing ULT
-        for bid, j in F.all_events():
-            dn = F.nodes[j]
-            if dn.get("k") == "decl":
-                for v in dn["vars"]:
-                    if v["t"].startswith("ABTI_ythread_callback_") and "init" in v:
-                        il = F.nodes[F.strip(v["init"])]
-                        if il.get("k") == "ilist":
-                            vals = [F.render(e) for e in il["e"]]
-                            rec = P.record(v["t"])
-                            names = [f["n"] for f in rec["fields"]]
-                            ok = vals and vals[0] == "p_self" and names[0] == "p_prev"
-                            if has_target and len(names) > 1 and names[1] == "p_next":
-                                ok = ok and vals[1] == "p_target"
-                            rep.ob("R3", "%s fills %s as %s" % (prim, v["t"], dict(zip(names, vals))), ok,
-                                   "p_prev must be the caller and p_next the target", loc=F.loc(j), site="%s/argstruct" % prim)
+        for var, (t, j, init) in sorted(ltypes.items()):
+            if not t.startswith("ABTI_ythread_callback_"):
+                continue
+            rec = P.record(t)
+            names = [f["n"] for f in rec["fields"]]
+            sv = _struct_values(F, var, init)
+            if not sv:
+                continue
+            vals = [rooted(F, sv[k]) if k in sv else (rooted(F, sv[n]) if n in sv else None)
+                    for k, n in enumerate(names)]
+            ok = bool(vals) and vals[0] == p_self and names[0] == "p_prev"
+            if has_target and len(names) > 1 and names[1] == "p_next":
+                ok = ok and vals[1] == p_target
+            rep.ob("R3", "%s fills %s as %s" % (prim, t, dict(zip(names, vals))), ok,
+                   "p_prev must be the caller and p_next the target", loc=F.loc(j), site="%s/argstruct" % prim)
     # API -> primitive: each success path performs exactly one switch, through the designated primitive,
     # with distinct caller / target ULTs
     allprims = set(PRIMS)
@@ -158,7 +221,8 @@ def rule_R3(P, rep):
         F = P.fn(api, file)
         rep.need(F.calls(prim), "%s does not call %s" % (api, prim))
         G = P.fn(prim)
-        sel = seq.Sel(calls=lambda c: c in allprims)
+        roles = _roles(G)
+        sel = Sel(calls=lambda c: c in allprims)
         n = 0
         for toks, kind, rv, rtxt in seq.sequences(F, sel, max_len=40):
             sw = [t for t in toks if t[0] == "call"]
@@ -169,9 +233,10 @@ def rule_R3(P, rep):
             if len(sw) != 1 or sw[0][1] != prim:
                 why.append("switches through %s" % [t[1] for t in sw])
             else:
-                argmap = {p["n"]: F.render(a) for p, a in zip(G.params, F.nodes[sw[0][-1]]["a"])}
-                if "p_target" in argmap and argmap["p_target"] == argmap.get("p_self"):
-                    why.append("caller and target are the same variable")
+                args = F.nodes[sw[0][-1]]["a"]
+                argmap = {r: rooted(F, args[k]) for r, k in roles.items() if k < len(args)}
+                if PRIMS[prim][1] and argmap.get("new") == argmap.get("old"):
+                    why.append("caller and target are the same unit (%s)" % argmap.get("new"))
                 if kind == "ret" and rv not in (0, None):
                     why.append("returns error %s after switching" % rv)
             rep.ob("R3", "%s switches exactly once through %s" % (api, prim), not why, "; ".join(why),
@@ -180,75 +245,25 @@ def rule_R3(P, rep):
     rep.min_instances("R3", 28)
 
 
-def _origins(F, var, depth=0, seen=None):
-    """Names (params, callees) that the definitions of local `var` are derived from."""
-    seen = seen or set()
-    if var is None or var in seen or depth > 4:
-        return set()
-    seen.add(var)
-    out = set()
-    if any(p["n"] == var for p in F.params):
-        out.add(var)
-    for bid, j in F.all_events():
-        nd = F.nodes[j]
-        defs = []
-        if nd.get("k") == "decl":
-            defs = [v["init"] for v in nd["vars"] if v["n"] == var and "init" in v]
-        elif nd.get("k") == "bin" and nd.get("asg") and F.render(nd["lh"]) == var:
-            defs = [nd["rh"]]
-        elif nd.get("k") == "call":
-            for a in nd["a"]:
-                an = F.nodes[F.strip(a)]
-                if an.get("k") == "un" and an["op"] == "&" and F.render(an["e"]) == var:
-                    out.add(nd.get("fn") or "indirect")
-                    for a2 in nd["a"]:
-                        for v2 in F.vars_in(a2):
-                            if v2 != var:
-                                out |= _origins(F, v2, depth + 1, seen)
-        for d in defs:
-            for x in F.descendants(d):
-                xn = F.nodes[x]
-                if xn.get("k") == "call" and xn.get("fn"):
-                    out.add(xn["fn"])
-            for v2 in F.vars_in(d):
-                out.add(v2)
-                out |= _origins(F, v2, depth + 1, seen)
-    return out
-
-
-def _origin_macros(F, var):
-    out = set()
-    for bid, j in F.all_events():
-        nd = F.nodes[j]
-        if nd.get("k") == "bin" and nd.get("asg") and var in F.render(nd["lh"]):
-            out |= set(nd.get("m", ()))
-        if nd.get("k") == "call":
-            for a in nd["a"]:
-                if ("&" + var) == F.render(a):
-                    out |= set(nd.get("m", ()))
-    return out
-
-
 def rule_R2(P, rep):
     C06.rule_R2(P, rep)
     F = P.fn("ABT_thread_resume", "src/thread.c")
     BLOCKED = P.enum_consts["ABT_THREAD_STATE_BLOCKED"]
 
     def conds(text, F, node):
-        c = atomic_cmp(F, node, "ABTI_thread::state")
-        if c and c[2] == BLOCKED:
-            return "state%sBLOCKED/%s" % (c[1], c[0])
+        order = atomic_test(F, node, "ABTI_thread::state", BLOCKED)
+        if order:
+            return "state==BLOCKED/%s" % order       # canonical polarity: true = the loaded state equals BLOCKED
         return False
-    sel = seq.Sel(calls={"ABTI_ythread_resume_and_push"}, conds=conds)
+    sel = Sel(calls={"ABTI_ythread_resume_and_push"}, conds=conds, canon=True)
     n = 0
     for toks, kind, rv, rtxt in seq.sequences(F, sel):
         r = idx(toks, is_call("ABTI_ythread_resume_and_push"))
         if kind != "ret" or not r:
             continue
         n += 1
-        tests = [t for t in toks[:r[0]] if t[0] == "if" and t[1].startswith("state")]
-        ok = bool(tests) and ((tests[-1][1].startswith("state==") and tests[-1][2]) or (tests[-1][1].startswith("state!=") and not tests[-1][2])) \
-            and tests[-1][1].endswith("/acquire")
+        tests = [t for t in toks[:r[0]] if t[0] == "if" and t[1].startswith("state==BLOCKED")]
+        ok = bool(tests) and tests[-1][2] is True and tests[-1][1].endswith("/acquire")
         rep.ob("R2", "ABT_thread_resume resumes only after observing BLOCKED with an acquire load", ok, show(toks),
                loc="%s:%d" % (F.file, F.line), site="ABT_thread_resume/precondition")
     rep.need(n >= 1, "ABT_thread_resume never resumes")
@@ -257,17 +272,22 @@ def rule_R2(P, rep):
 def rule_R4(P, rep):
     F = P.fn("ABT_thread_yield_to", "src/thread.c")
     READY = P.enum_consts["ABT_THREAD_STATE_READY"]
+    G = P.fn("ABTI_ythread_thread_yield_to")
+    roles = _roles(G)
+    rep.need("old" in roles and "new" in roles, "ABTI_ythread_thread_yield_to: ABTI_ythread * parameters not found")
+    handle = F.params[0]["n"]
 
     def conds(text, F, node):
-        c = atomic_cmp(F, node, "ABTI_thread::state")
-        if c and c[2] == READY:
-            return "state%sREADY/%s" % (c[1], c[0])
-        for d in F.descendants(node):
+        order = atomic_test(F, node, "ABTI_thread::state", READY)
+        if order:
+            return "state==READY/%s" % order         # canonical polarity: true = the loaded state equals READY
+        for d in descendants_through(F, node):
             dn = F.nodes[d]
             if dn.get("k") == "call" and "fe" in dn and F.fieldpath(dn["fe"]).endswith("u_is_in_pool"):
-                return "in_pool?"
+                # the canonical label is `(*u_is_in_pool)(unit) == 1` (or the bare call): true = the unit is queued
+                return "in_pool?" if (text.endswith(") == 1") or " == " not in text) else "in_pool?:" + text
         return False
-    sel = seq.Sel(calls={"ABTI_pool_remove", "ABTI_ythread_thread_yield_to", C06.INC}, conds=conds, indirect=True)
+    sel = Sel(calls={"ABTI_pool_remove", "ABTI_ythread_thread_yield_to", C06.INC}, conds=conds, indirect=True, canon=True)
     n = 0
     for toks, kind, rv, rtxt in seq.sequences(F, sel):
         sw = idx(toks, is_call("ABTI_ythread_thread_yield_to"))
@@ -275,30 +295,31 @@ def rule_R4(P, rep):
             continue
         n += 1
         why = []
+        swargs = F.nodes[toks[sw[0]][-1]]["a"]
+        cur, tgt = rooted(F, swargs[roles["old"]]), rooted(F, swargs[roles["new"]])
         rm = idx(toks, is_call("ABTI_pool_remove"))
         if len(rm) != 1 or rm[0] > sw[0]:
             why.append("target not removed from its pool before the switch (it could be popped and run twice)")
         else:
-            args = [F.render(a) for a in F.nodes[toks[rm[0]][-1]]["a"]]
-            if "p_tar_ythread" not in args[0] or "p_tar_ythread" not in args[1]:
+            args = [rooted(F, a) for a in F.nodes[toks[rm[0]][-1]]["a"]]
+            if args[0] != tgt + "->thread.p_pool" or args[1] != tgt + "->thread.unit":
                 why.append("removes %s" % args)
             inp = [t for t in toks[:rm[0]] if t[0] == "if" and t[1] == "in_pool?"]
-            rdy = [t for t in toks[:rm[0]] if t[0] == "if" and t[1].startswith("state")]
+            rdy = [t for t in toks[:rm[0]] if t[0] == "if" and t[1].startswith("state==READY")]
             if not inp or not inp[-1][2]:
                 why.append("no successful in-pool test before the removal")
-            if not rdy or not ((rdy[-1][1].startswith("state==") and rdy[-1][2])) or not rdy[-1][1].endswith("/acquire"):
+            if not rdy or rdy[-1][2] is not True or not rdy[-1][1].endswith("/acquire"):
                 why.append("no acquire observation of READY before the removal")
             if inp and rdy and toks.index(inp[-1]) > toks.index(rdy[-1]):
                 why.append("state tested before the in-pool flag (READY is stored before the push, so the flag must be read first)")
-        tgt = [F.render(a) for a in F.nodes[toks[sw[0]][-1]]["a"]]
-        if tgt[2] != "p_tar_ythread" or tgt[1] != "p_cur_ythread":
-            why.append("switches %s -> %s" % (tgt[1], tgt[2]))
+        # the unit switched to is the one the caller named (derived from the handle parameter), the outgoing one is the
+        # unit running on the local stream
+        if ("ABTI_thread_get_ptr(%s)" % handle) not in canon.expr(F, swargs[roles["new"]]) or \
+                "ABTI_xstream::p_thread" not in canon.expr(F, swargs[roles["old"]]) or cur == tgt:
+            why.append("switches %s -> %s" % (cur, tgt))
         rep.ob("R4", "ABT_thread_yield_to: test, pre-count, remove, switch [%s]" % show(toks)[:200], not why, "; ".join(why),
                loc="%s:%d" % (F.file, F.line), site="ABT_thread_yield_to/switch")
     rep.need(n >= 1, "ABT_thread_yield_to never switches")
-
-
-SWITCHY = None
 
 
 def rule_R6(P, rep):
@@ -306,25 +327,29 @@ def rule_R6(P, rep):
     ABTI_xstream* to a function that may switch must refresh *pp_local from it on every path to a return."""
     n = 0
     for F in sorted(P.functions.values(), key=lambda f: (f.file, f.line)):
-        pl = [p["n"] for p in F.params if p["t"].replace(" ", "") == "ABTI_local**"]
+        pl = [p["n"] for p in F.params if _ty(p) == "ABTI_local**"]
         if not pl:
             continue
         ppl = pl[0]
-        refresh = []
+        refresh = []      # (store node, canonical value): stores through the ABTI_local ** parameter
         for b, i, lh, rh in F.stores():
-            if rh is not None and F.render(lh) == "*" + ppl and "ABTI_xstream_get_local(" in F.render(rh):
-                refresh.append(i)
+            ln = F.nodes[F.strip(lh)]
+            if rh is not None and ln.get("k") == "un" and ln["op"] == "*":
+                bn = F.nodes[F.strip(ln["e"])]
+                if bn.get("k") == "ref" and bn["n"] == ppl:
+                    refresh.append((i, canon.expr(F, rh)))
         for bid, nid in F.calls():
             nd = F.nodes[nid]
             G = P.resolve_call(F, nd) if nd.get("fn") else None
             if G is None:
                 continue
             for p, a in zip(G.params, nd["a"]):
-                if p["t"].replace(" ", "") == "ABTI_xstream**":
+                if _ty(p) == "ABTI_xstream**":
                     an = F.nodes[F.strip(a)]
-                    if an.get("k") == "un" and an["op"] == "&":
-                        var = F.render(an["e"])
-                        ok_refresh = [i for i in refresh if ("ABTI_xstream_get_local(%s)" % var) in F.render(i)]
+                    inner = F.nodes[F.strip(an["e"])] if an.get("k") == "un" and an["op"] == "&" else None
+                    if inner is not None and inner.get("k") == "ref":
+                        var = inner["n"]
+                        ok_refresh = [i for i, val in refresh if val == "ABTI_xstream_get_local(%s)" % var]
                         path = cfg.reach_exit_avoiding(F, nid, avoid_nodes=ok_refresh)
                         n += 1
                         rep.ob("R6", "%s refreshes *%s from %s after %s on every path to a return" % (F.name, ppl, var, nd["fn"]),
@@ -350,3 +375,4 @@ def run(P, rep, tier):
     for o in sub.obligations:
         rep.ob("R5", "[C06.%s] %s" % (o["rule"], o["instance"]), o["ok"], o["detail"], o["loc"], site="R5/" + o["instance"][:150])
     rule_R6(P, rep)
+    common.borrow(rep, P, C12.rule_R3, "R7")
